@@ -276,9 +276,10 @@ func hasField(t types.Type, name string) bool {
 // loadNoAssume reads a place without adding well-typedness facts to the path condition
 // (specification evaluation must not change the state).
 func (env *Env) loadNoAssume(p *Place) Value {
+	s := env.st
+	p = s.resolve(p)
 	ls := flatten(p.Typ)
 	v := Value{Typ: p.Typ}
-	s := env.st
 	switch p.Kind {
 	case PLocal:
 		cv := s.cells[p.Cell]
@@ -381,7 +382,11 @@ func (env *Env) binary(x *SBinary) Value {
 			if a.Nil {
 				o = b
 			}
-			eq = Eq(o.L[0], I(0))
+			if o.Place != nil {
+				eq = FalseT // address of a local object is never nil
+			} else {
+				eq = Eq(o.L[0], I(0))
+			}
 		case len(a.L) == len(b.L):
 			var cs []Term
 			for i := range a.L {
@@ -486,6 +491,10 @@ func (env *Env) call(x *SCall) Value {
 		if env.old == nil {
 			env.fail("fresh() needs a two-state context")
 		}
+		if v.Place != nil && v.Place.Kind == PLocal {
+			// object allocated by this function and not yet published: fresh by construction
+			return boolVal(TrueT)
+		}
 		return boolVal(And(Ge(v.L[0], env.old.hwm), Lt(v.L[0], env.st.hwm)))
 	case "allocated":
 		v := env.eval(x.Args[0])
@@ -507,16 +516,25 @@ func (env *Env) call(x *SCall) Value {
 	case "typeIs":
 		// typeIs(ifaceExpr, TypeName)
 		a := env.eval(x.Args[0])
-		tn, ok := x.Args[1].(*SIdent)
-		var ts string
-		if ok {
-			ts = tn.Name
-		} else if u, ok := x.Args[1].(*SUnary); ok {
-			_ = u
-		}
 		t := env.resolveType(strings.ReplaceAll(typeExprString(x.Args[1]), " ", ""))
-		_ = ts
 		return boolVal(Eq(a.L[0], env.enc.typeID(t)))
+	case "cast":
+		// cast(ifaceExpr, *T): the dynamic value viewed as *T (meaningful only under typeIs)
+		a := env.eval(x.Args[0])
+		t := env.resolveType(strings.ReplaceAll(typeExprString(x.Args[1]), " ", ""))
+		if _, isIface := a.Typ.Underlying().(*types.Interface); !isIface || len(flatten(t)) != 1 {
+			env.fail("cast: need interface value and single-word target type")
+		}
+		return Value{Typ: t, L: []Term{a.L[1]}}
+	case "asIface":
+		a := env.eval(x.Args[0])
+		if len(a.L) != 1 {
+			env.fail("asIface: need single-word value")
+		}
+		if a.Place != nil {
+			env.fail("asIface: local address")
+		}
+		return Value{Typ: types.NewInterfaceType(nil, nil), L: []Term{env.enc.typeID(a.Typ), a.L[0]}}
 	case "isnil":
 		a := env.eval(x.Args[0])
 		return boolVal(Eq(a.L[0], I(0)))
@@ -546,7 +564,7 @@ func (env *Env) call(x *SCall) Value {
 			n.pkg = pkg
 		}
 		n.oldVars = nil
-		return boolVal(n.evalB(pd.Body))
+		return n.eval(pd.Body)
 	}
 	env.fail("unknown function %s", x.Fn)
 	return Value{}
@@ -554,6 +572,10 @@ func (env *Env) call(x *SCall) Value {
 
 func typeExprString(e SExpr) string {
 	switch x := e.(type) {
+	case *SUnary:
+		if x.Op == "*" {
+			return "*" + typeExprString(x.X)
+		}
 	case *SIdent:
 		return x.Name
 	case *SField:
@@ -588,6 +610,8 @@ func specParamLeaves(typ string) []Leaf {
 		return []Leaf{{".id", SInt, nil}, {".off", SInt, nil}, {".len", SInt, nil}}
 	case "intmap": // (Array Int Int) ghost sequence
 		return []Leaf{{"", SArr, nil}}
+	case "iface":
+		return []Leaf{{".typ", SInt, nil}, {".val", SInt, nil}}
 	}
 	panic(specErr("unsupported spec parameter type " + typ))
 }
@@ -612,6 +636,8 @@ func specGoType(typ string) types.Type {
 		return types.Typ[types.String]
 	case "intmap":
 		return tInt
+	case "iface":
+		return types.NewInterfaceType(nil, nil)
 	}
 	panic(specErr("unsupported spec type " + typ))
 }
@@ -624,6 +650,11 @@ func (env *Env) specArg(p ParamDecl, v Value) []Term {
 	case "string":
 		if !isString(v.Typ) {
 			env.fail("expected string argument for %s", p.Name)
+		}
+		return v.L
+	case "iface":
+		if len(v.L) != 2 {
+			env.fail("expected interface argument for %s", p.Name)
 		}
 		return v.L
 	default:
